@@ -252,3 +252,20 @@ def po_next_bar(S):
         except REJECT:
             return
         S.check("bar-1:accepted-collateral-withdrawal=>health-factor>=1(at-bar-1,mod-dust)", not was_collateral or hf_at_least_one_mod_dust(m, w.op))
+
+
+@proof("C11", "same-bar/second-borrow-is-judged-against-the-debt-the-first-left", strength="S",
+       shapes={k: [s for s in v if s["supplies"]][:3] for k, v in SHAPES.items()}, contracts=AAVE_CONTRACTS, covers=("both-accepted",), config={"max_seconds": 600})
+def po_two_borrows(S):
+    """'covers all debt including the new one' — all debt, also what was borrowed a moment ago in the same bar (of a token that already had
+    debt or not): after two accepted borrows the total debt is within collateral x weighted max-LTV."""
+    w = world(S)
+    m = w.market
+    try:
+        m.borrow(w.op, S.dec("amount_1", None, None))
+        m.borrow(w.op, S.dec("amount_2", None, None))
+    except REJECT:
+        return
+    S.cover("both-accepted")
+    S.check("after-two-accepted-borrows:all-debt<=collateral-x-weighted-max-ltv", S.le(total_debt_value(m), weighted_collateral(m, "LTV")))
+    S.check("health-factor>=1-afterwards", hf_at_least_one(m))
